@@ -294,8 +294,10 @@ func (v *V) Time() time.Time {
 	default:
 		t = time.Unix(1700000000+int64(r.Intn(100000)), int64(r.Intn(1000000000)))
 	}
-	if v.Time1970to2100 && t.Unix() < 0 {
-		t = time.Unix(-t.Unix(), int64(t.Nanosecond()))
+	if v.Time1970to2100 && (t.Unix() < -4102444800 || t.Unix() > 4102444799) {
+		// C08 domain: instants within 130 years of the epoch on either side (1840-2100), where a float64
+		// number of seconds still resolves better than one microsecond
+		t = time.Unix(t.Unix()%4102444800, int64(t.Nanosecond()))
 	}
 	return t.In(zones[r.Intn(len(zones))])
 }
